@@ -14,6 +14,8 @@ pub mod c11;
 pub mod c12;
 pub mod c13;
 pub mod c14;
+pub mod c15;
+pub mod c16;
 pub mod c17;
 pub mod c18;
 pub mod c19;
@@ -32,6 +34,8 @@ pub fn run(prop: &str, args: &Args) -> i32 {
         "C12" => c12::run(args),
         "C13" => c13::run(args),
         "C14" => c14::run(args),
+        "C15" => c15::run(args),
+        "C16" => c16::run(args),
         "C17" => c17::run(args),
         "C18" => c18::run(args),
         "C19" => c19::run(args),
